@@ -1769,7 +1769,13 @@ class SpaceUpdater(SharedSpaceOperations):
             self._instructions.append(
                 Instruction(self._update_derived_space, (v,)))
 
-        self._instructions.execute()
+        try:
+            self._instructions.execute()
+        except BaseException:
+            # Restore the members derived from the bases before the change
+            self.manager.update_subs(
+                self.manager._graph.to_space(node), skip_self=False)
+            raise
         self._update_manager()
 
     def remove_bases(self, space, bases):
